@@ -17,57 +17,93 @@ from tables import refgroups as RG
 PID = "C05"
 
 
-def conc_conventional(sg, occ, vals, lat=None):
-    """real analyzer, real spglib, real ASE on the concrete crystal built from the Hall-database orbits"""
+def _atoms_of(sg, occ, vals, lat=None):
     from ase import Atoms
-    import spglib
     pos, nums = [], []
     for (letter, Z), v in zip(occ, vals):
         for p in S.orbit(sg, letter):
             pos.append([x % 1 for x in p.value(v)])
             nums.append(Z)
     lat = np.array(S.std_lattice(sg), dtype=float) if lat is None else lat
-    at = Atoms(numbers=nums, scaled_positions=pos, cell=lat, pbc=True)
-    an = SA.SymmetryAnalyzer(at, symmetry_tol=1e-4)
+    return Atoms(numbers=nums, scaled_positions=pos, cell=lat, pbc=True)
+
+
+def _judge(sg, an, conv, ds, independent=True):
+    import spglib
     msgs = []
-    try:
-        conv = an.get_conventional_system()
-    except Exception as ex:
-        return [f"get_conventional_system raised {type(ex).__name__}: {ex}"], None
-    ds = an.get_symmetry_dataset()
-    if ds.number != sg:
-        return [], None      # spglib sees another group (accidental extra symmetry of this witness): not a usable replay
     T = np.asarray(an._best_transform["transformation"], dtype=float)
     if RG.is_sohncke(sg) and np.linalg.det(T[:3, :3]) < 0:
         msgs.append(f"chiral space group {sg}: the chosen transformation has determinant {np.linalg.det(T[:3, :3]):.0f} (mirror image returned)")
     f_new = conv.get_scaled_positions(wrap=False)
-    f_old = np.asarray(ds.std_positions)
+    f_old = np.asarray(ds.std_positions, dtype=float)
     want = f_old @ T[:3, :3].T + T[:3, 3]
-    d = f_new - want
-    if f_new.shape != want.shape or np.abs(d - np.round(d)).max() > 1e-6:
+    if f_new.shape != want.shape or np.abs((f_new - want) - np.round(f_new - want)).max() > 1e-6:
         msgs.append("conventional positions are not the chosen rigid motion applied to spglib's standardized atoms (mod lattice)")
     if f_new.min() < -1e-9 or f_new.max() >= 1 + 1e-9:
         msgs.append("conventional positions outside [0,1)")
-    if list(conv.get_atomic_numbers()) != list(ds.std_types) or not np.allclose(np.array(conv.get_cell()), ds.std_lattice):
+    if list(conv.get_atomic_numbers()) != list(ds.std_types) or not np.allclose(np.array(conv.get_cell()), np.asarray(ds.std_lattice, dtype=float)):
         msgs.append("composition or lattice changed")
-    ds2 = spglib.get_symmetry_dataset((np.array(conv.get_cell()), conv.get_scaled_positions(), conv.get_atomic_numbers()), symprec=1e-4)
-    if ds2 is None or ds2.number != sg:
-        msgs.append(f"independent symmetry search on the result gives space group {None if ds2 is None else ds2.number}, input has {sg}")
+    if independent:
+        ds2 = spglib.get_symmetry_dataset((np.array(conv.get_cell()), conv.get_scaled_positions(), conv.get_atomic_numbers()), symprec=1e-4)
+        if ds2 is None or ds2.number != sg:
+            msgs.append(f"independent symmetry search on the result gives space group {None if ds2 is None else ds2.number}, input has {sg}")
     return msgs, T
 
 
-def make_fn(sg, occs):
+def conc_conventional(sg, occ, vals, lat=None, prev=None):
+    """two replay levels: (1) real analyzer, real spglib, real ASE on the concrete crystal built from the Hall-database orbits
+    (after `prev` = (occupation, parameters) analysed first on the same analyzer object, if given); (2) the same with spglib's
+    dataset scripted as the contract dataset of the symbolic path (the witness may have accidental extra symmetry for spglib)"""
+    msgs, T = [], None
+    try:
+        if prev is not None:
+            an = SA.SymmetryAnalyzer(_atoms_of(sg, prev[0], prev[1], lat), symmetry_tol=1e-4)
+            an.get_conventional_system()
+            an.set_system(_atoms_of(sg, occ, vals, lat))
+        else:
+            an = SA.SymmetryAnalyzer(_atoms_of(sg, occ, vals, lat), symmetry_tol=1e-4)
+        conv = an.get_conventional_system()
+        ds = an.get_symmetry_dataset()
+        if ds.number == sg:     # else: spglib sees another group (accidental extra symmetry of this witness)
+            msgs, T = _judge(sg, an, conv, ds)
+    except Exception as ex:
+        msgs = [f"get_conventional_system raised {type(ex).__name__}: {ex}"]
+    if msgs or lat is not None:
+        return msgs, T
+    dss = ([S.concrete_dataset(sg, prev[0], prev[1])] if prev is not None else []) + [S.concrete_dataset(sg, occ, vals)]
+    ses = S.RealSession(dss)
+    with ses.active():
+        try:
+            an = ses.start()
+            if prev is not None:
+                an.get_conventional_system()
+                an = ses.switch(1)
+            conv = an.get_conventional_system()
+            msgs, T = _judge(sg, an, conv, dss[-1], independent=False)
+        except Exception as ex:
+            msgs = [f"get_conventional_system raised {type(ex).__name__}: {ex}"]
+    return ["[spglib dataset scripted] " + m for m in msgs], T
+
+
+def make_fn(sg, occs, reuse=False):
     cands = {k: p for k, p in S.candidate_transforms(sg)}
     sohncke = RG.is_sohncke(sg)
 
     def fn(e):
         occ = e.pick(occs)
         ds = S.make_dataset(e, sg, occ)
-        ses = S.Session([ds])
+        prev_ds = None
+        if reuse:
+            # the analyzer object has analysed another crystal before (set_system must leave nothing of it behind)
+            prev_ds = S.make_dataset(e, sg, e.pick(occs), tag="P")
+        ses = S.Session([prev_ds, ds] if reuse else [ds])
         exc = None
         with ses.active():
             try:
                 an = ses.start()
+                if reuse:
+                    an.get_conventional_system()
+                    an = ses.switch(1)
                 conv = an.get_conventional_system()
                 bt = an._best_transform
             except Exception as ex:     # noqa: BLE001
@@ -75,9 +111,12 @@ def make_fn(sg, occs):
 
         def cex(env):
             vals = [[float(S.concrete(np.array([x], dtype=object), env)[0]) if isinstance(x, SReal) else float(x) for x in p] for p in ds["_params"]]
-            msgs, T = conc_conventional(sg, occ, vals)
-            return {"key": f"H05:sg{sg}:{cex.label}", "what": f"space group {sg}, occupation {occ}: " + "; ".join(msgs),
-                    "replay": {"kind": "conventional", "sg": sg, "occupation": [list(o) for o in occ], "params": vals}, "reproduced": bool(msgs)}
+            prev = None
+            if reuse:
+                prev = (prev_ds["_occupation"], [[float(S.concrete(np.array([x], dtype=object), env)[0]) if isinstance(x, SReal) else float(x) for x in p] for p in prev_ds["_params"]])
+            msgs, T = conc_conventional(sg, occ, vals, prev=prev)
+            return {"key": f"H05:sg{sg}:{cex.label}", "what": f"space group {sg}, occupation {occ}" + (f" (analyzer reused after {prev[0]})" if prev else "") + ": " + "; ".join(msgs),
+                    "replay": {"kind": "conventional", "sg": sg, "occupation": [list(o) for o in occ], "params": vals, "prev": [[list(o) for o in prev[0]], prev[1]] if prev else None}, "reproduced": bool(msgs)}
 
         def mk(label):
             def c(env):
@@ -115,7 +154,10 @@ def make_fn(sg, occs):
                     conds.append(z3.IsInt(d.z3()) if not d.is_const() else z3.BoolVal(d.cval().denominator == 1))
                     conds.append(z3.And(f_new[i][c].rel(lambda a, b: a >= b), f_new[i][c].rel(lambda a, b: a < b, 1)))
             e.post("positions = chosen rigid motion of the standardized atoms (mod lattice), inside [0,1)", z3.And(*conds), mk("positions"))
-        e.validate_with(lambda env: S.validate_against_real(sg, ds, env, key, f_new, an.get_wyckoff_letters_conventional()))
+        if not reuse:
+            e.validate_with(lambda env: S.validate_against_real(sg, ds, env, key, f_new, an.get_wyckoff_letters_conventional()))
+        else:
+            e.reach("H05:reuse")
         e.reach("H05:identity" if key == S.IDENTITY_KEY else "H05:normalizer-applied")
         e.sample({"space_group": sg, "occupation": occ, "chosen": "identity" if key == S.IDENTITY_KEY else [[str(v) for v in r] for r in key[:3]]})
     return fn
@@ -132,6 +174,17 @@ def run_group(arg):
     sg, tier = arg
     occs = S.occupations(sg, orbit_bound(sg, tier), S.ELEMENTS)
     st = explore(make_fn(sg, occs), f"H05:sg{sg}", workers=1, timeout_ms=20000, budget_s=3000, validate_every=10)
+    # analyzer reuse: ordered pairs of single-orbit occupations
+    occ1 = S.occupations(sg, 1, S.ELEMENTS)[: (5 if tier == "quick" else 10)]
+    st2 = explore(make_fn(sg, occ1, True), f"H05r:sg{sg}", workers=1, timeout_ms=20000, budget_s=3000)
+    for k in ("paths", "forks", "obligations", "discharged", "validated", "solver_s", "wall_s"):
+        st[k] += st2[k]
+    for k in ("unsat", "sat", "unknown"):
+        st["queries"][k] += st2["queries"][k]
+    for l, v in st2["reach"].items():
+        st["reach"][l] = st["reach"].get(l, 0) + v
+    for k in ("inconclusive", "harness_errors", "violations"):
+        st[k].extend(st2[k])
     return sg, st, len(occs)
 
 
@@ -139,7 +192,7 @@ def main(tier, seed, only=None):
     import multiprocessing as mp
     rep = Report(PID, tier, seed)
     for f in (SA.SymmetryAnalyzer._find_wyckoff_ground_state, SA.SymmetryAnalyzer.get_conventional_system, SA.SymmetryAnalyzer._get_spglib_conventional_system,
-              SA.SymmetryAnalyzer._get_spglib_wyckoff_letters_conventional, G.get_wrapped_positions):
+              SA.SymmetryAnalyzer._get_spglib_wyckoff_letters_conventional, SA.SymmetryAnalyzer.set_system, SA.SymmetryAnalyzer.reset, G.get_wrapped_positions):
         rep.function(f)
     groups = [int(x) for x in only] if only else list(range(1, 231))
     order = sorted(groups, key=lambda g: -len(S.occupations(g, orbit_bound(g, tier), S.ELEMENTS)) * len(RG.group_ops(g)))
@@ -149,9 +202,10 @@ def main(tier, seed, only=None):
             rep.merge_stats(st, "H05")
             nocc += n
     if not only:
-        rep.require_reached("H05:identity", "H05:normalizer-applied")
+        rep.require_reached("H05:identity", "H05:normalizer-applied", "H05:reuse")
     rep.bounds = {"space_groups": len(groups), "occupations": nocc,
                   "orbits": "quick: <= 2 orbits, every group; thorough: <= 3 orbits for groups with <= 10 Wyckoff letters, 2 otherwise",
+                  "reuse": "one analyzer object, a first crystal analysed, then set_system: ordered pairs of the first 5 (10) single-orbit occupations per group",
                   "species": "<= 2 (3) distinct species by rank", "parameters": "symbolic Wyckoff parameters in [1/50, 49/50]"}
     rep.stubs = ["SpglibContract: std_lattice/std_positions/std_types/wyckoffs/mappings of a crystal given in the standard setting, built from the Hall-database orbits",
                  "StubAtoms / StubSystem", "get_wrapped_positions by its exact-arithmetic contract (x mod 1); the 1e-5 snap is checked in C08"]
@@ -161,5 +215,6 @@ def main(tier, seed, only=None):
 
 
 def replay(d):
-    msgs, T = conc_conventional(d["sg"], [tuple(o) for o in d["occupation"]], d["params"])
+    prev = d.get("prev")
+    msgs, T = conc_conventional(d["sg"], [tuple(o) for o in d["occupation"]], d["params"], prev=([tuple(o) for o in prev[0]], prev[1]) if prev else None)
     return bool(msgs), "; ".join(msgs) or "ok"
